@@ -83,18 +83,20 @@ def run(tier, seed, replay=None):
             cases.append(c)
         # real-size shapes: many regions, regions from sector 1, to the last sector, beyond the file; malformed counts
         shapes = []
-        many = [[0, 1]] + [[2 * k, 2 * k + 1] for k in range(1, 255)]
-        shapes.append(("r255", many, 512, None))
+        many = [[0, 1]] + [[3 * k, 3 * k + 1] for k in range(1, 255)]      # (bounds are first / last sector: one encrypted sector between neighbours)
+        shapes.append(("r255", many, 770, None))
         shapes.append(("from1", [[0, 1], [3, 5], [9, 10]], 12, None))
         shapes.append(("tolast", [[0, 2], [4, 6], [11, 12]], 12, None))
         shapes.append(("beyond", [[0, 2], [4, 6], [20, 30]], 8, None))
-        shapes.append(("adjacent", [[0, 2], [2, 4], [6, 8]], 10, None))
+        shapes.append(("adjacent", [[0, 2], [3, 4], [6, 8]], 10, None))       # nothing encrypted between the first two
+        shapes.append(("touching", [[0, 2], [2, 4], [6, 8]], 10, None))       # sector 2 claimed twice: not a table
+        shapes.append(("single", [[0, 0], [2, 2], [5, 9]], 10, None))         # regions of one sector
         # bounds that do not fit a signed 32-bit sector number (the table holds unsigned 32-bit values): everything after sector 2 is encrypted
         shapes.append(("beyond31", [[0, 2], [2 ** 31, 2 ** 31 + 5]], 8, None))
         shapes.append(("beyond32", [[0, 2], [4, 5], [2 ** 32 - 2, 2 ** 32 - 1]], 8, None))
         shapes.append(("count0", [], 4, 0))
         shapes.append(("count1", [[0, 4]], 4, None))
-        shapes.append(("count256", [[0, 1]] + [[2 * k, 2 * k + 1] for k in range(1, 256)], 520, None))
+        shapes.append(("count256", [[0, 1]] + [[3 * k, 3 * k + 1] for k in range(1, 256)], 780, None))
         shapes.append(("countlie3", [[0, 1], [3, 4]], 6, 3))
         shapes.append(("counthuge", [[0, 1], [3, 4]], 6, 2 ** 32 - 1))
         shapes.append(("count70000", [[0, 1], [3, 4]], 6, 70000))
@@ -113,7 +115,7 @@ def run(tier, seed, replay=None):
         # 3k3y views: masking of [0xF70, 0x1070) over the decrypting view and over an already decrypted image
         for wrap, kind in (("over-enc", "3k3y-enc"), ("over-raw", "3k3y-dec")):
             for clear in (False, True):
-                for regions in ([[0, 3], [5, 7], [9, 10]], [[0, 2], [3, 7], [9, 10]]):    # second: the tail of the 3k3y area lies in an encrypted sector
+                for regions in ([[0, 3], [5, 7], [9, 10]], [[0, 1], [3, 7], [9, 10]]):    # second: the tail of the 3k3y area lies in an encrypted sector
                     c = {"name": "3k3y-%s-%s-%d" % (wrap, clear, regions[0][1]), "spec": {"kind": kind, "key": rand_key(rng), "regions": regions, "sectors": 10, "extraLen": 0},
                          "clear": clear and wrap == "over-enc", "wrap3k3y": wrap, "cuts": [8 + 8 * len(regions), 0xF70, 0x1070], "cut": []}
                     ops = []
@@ -132,5 +134,5 @@ def run(tier, seed, replay=None):
         rep.cov["distinct_nontrivial"] = rep.cov["traces_validated_against_impl"]
         rep.cov["samples"] = [{"case": cases[0]["name"], "regions": cases[0]["spec"]["regions"], "ops": cases[0]["ops"][:3]}]
         rep.assumptions += ["reference cipher: crypto/aes + hand-written CBC, verified against NIST SP 800-38A F.2.1 at harness start",
-                            "encrypted = gaps between plain regions, end-exclusive (as implemented)"]
+                            "region bounds are first and last sector, both inclusive (the format; the image generator of this project writes them so)"]
     return rep.finish()
